@@ -175,6 +175,19 @@ CLAIMED = {
         note=TRUST + " Assumed: convertHasExpression is pure (trusted); bson construction does not touch the modelled state; statements "
              "handed over to the core engine (jump/set/increment, pipeline extensions) are outside the MongoDB contract.",
         technique="contract-based deductive verification: both functions proved against one shared specification table, WP/VC + SMT"),
+    "C10": dict(
+        level="other",
+        text="Partial: the iterator wrappers of the badger and pebble drivers (Seek, SeekReverse, Next, Valid, Key) are proved, for "
+             "every store content and every earlier iterator position, to behave as the ordered-map iterator of the kvi contract "
+             "(smallest key at or after / largest key at or before the target, invalid when there is none, neighbour on Next), "
+             "given assumed contracts of the libraries' own cursors. Not decided: the bolt and leveldb wrappers (they test byte "
+             "slices against nil, which the model cannot tell from empty; their seek defects were found by inspection, shown by a "
+             "differential demonstration and repaired), point reads/writes, DeletePrefix and the transaction wrappers of all four "
+             "drivers, and the equality of whole histories across drivers.",
+        ref="§5 C10",
+        note=TRUST + " Assumed: badger v2 and pebble iterator contracts (spec/kvlib.gvc, written from their documentation), the "
+             "direction of the cursor badgerIterator.init creates, copyBytes; nil and empty byte slices identified, no stored key empty.",
+        technique="contract-based deductive verification: driver wrappers proved against the interface contract over assumed library contracts"),
 }
 
 NOT_APPLICABLE = {
